@@ -23,6 +23,23 @@ def run_one(pid, tier, seed, only_key=None):
         repo = Repo()
         chk = Check(pid, tier, repo)
         explanation, rule_text = mod.run(chk, repo, tier)
+        if tier == 'thorough' and only_key is None:
+            from . import selftest
+            st = selftest.run(pid)
+            chk.notes['selftest'] = {k: v for k, v in st.items() if k != 'unmet'}
+            chk.notes['selftest_unmet'] = st['unmet'][:10]
+            chk.rules[f'{pid}.SELFTEST'] = ('checker self-test: AST-computed single edits of /repo/pytenet in scratch copies; '
+                                           'breaking edits must be reported by this property, benign edits must stay silent')
+            for smp in st['samples']:
+                chk.ob(f'{pid}.SELFTEST', 'scratch copy', f'mutant reported: {smp["variant"][:110]}', True, smp['reported'],
+                       key=f'{pid}.SELFTEST|{smp["variant"]}', trivial=True)
+            print(f'[{pid}] self-test: {st["variants"]} variants, {st["detected"]}/{st["breaking"]} breaking edits reported, '
+                  f'{st["silent_ok"]}/{st["benign"]} benign edits silent')
+            if st['unmet']:
+                for u in st['unmet'][:5]:
+                    print(f'  self-test expectation unmet: {u["variant"]} expected {u["expected"]} got {u["got"]}')
+                raise AnalysisError(f'checker self-test failed for {len(st["unmet"])} of {st["variants"]} variants; '
+                                    f'the verdict of this run is not to be believed')
         if only_key is not None:
             hits = [o for o in chk.obligations if o['key'] == only_key]
             print(f'replay: {len(hits)} obligation(s) with key {only_key!r}')
